@@ -323,3 +323,13 @@ pub fn maybe_wide<C: Suite>(p: &mut Prng, one_in: u64) -> Option<(u16, u16)> {
     };
     Some((n, t))
 }
+
+fn default_ids_hex_c<C: Suite>(count: usize) -> Vec<String> {
+    let mut p = Prng::from_seed(0);
+    gen_ids::<C>(&mut p, "default", count)
+}
+
+/// Default identifiers 1..=count in the named suite's encoding (used by the minimiser).
+pub fn default_ids_hex(suite: &str, count: usize) -> Vec<String> {
+    crate::dispatch!(suite, default_ids_hex_c(count))
+}
